@@ -14,7 +14,8 @@ func (r *Router) proxy(w http.ResponseWriter, req *http.Request) {
 	r.Metrics.Increment(r.metricsNames.routerProxied)
 	r.Logger.Debug().Logf("proxying request for %s", req.URL.Path)
 	upstreamTarget := r.Config.GetHoneycombAPI()
-	forwarded := req.Header.Get("X-Forwarded-For")
+	// a client may send several X-Forwarded-For lines; keep every entry
+	forwarded := strings.Join(req.Header.Values("X-Forwarded-For"), ", ")
 	// let's copy the request over to a new one and
 	// dispatch it upstream
 	defer req.Body.Close()
@@ -37,7 +38,10 @@ func (r *Router) proxy(w http.ResponseWriter, req *http.Request) {
 		upstreamReq.Header.Set("X-Forwarded-For", req.RemoteAddr)
 	}
 	// call the upstream service
-	resp, err := r.proxyClient.Do(upstreamReq)
+	// relay redirects to the client instead of following them here
+	client := *r.proxyClient
+	client.CheckRedirect = func(*http.Request, []*http.Request) error { return http.ErrUseLastResponse }
+	resp, err := client.Do(upstreamReq)
 	if err != nil {
 		r.handlerReturnWithError(w, ErrUpstreamUnavailable, err)
 		return
